@@ -69,7 +69,35 @@ decode like the plain file, in both renderings), C19-6 (removal in slices of 25:
 whole-group taint rates, cloud minimum far above min_nodes - and a check that a batch which breaches the minimum as a whole
 is not executed in part).
 
-After that all ninety-eight are caught by the quick check of the property they were written against.
+A fifth and a sixth round (six agents each, two changes each, themes: fleet path, starve/node-age accounting, dry mode and
+cordoned nodes, pod/node attribution, the provider's cached view, error handling in the scan loop; then taint book-keeping
+and selection order, grace periods and protection, lock and scale-up arithmetic, configuration decoding, bounds and the
+one-shot resize path, less travelled branches) gave 24 confirmed changes, 19 caught at first try. The misses: C13-6 (pending
+pods that are being deleted dropped from the request total: the multisets and the histories had no pod with a deletion
+timestamp - the C13 generator now varies phase, deletion timestamp, finalizers, conditions, priority and owner, and a world
+operation marks pods of a group as terminating for a few scans), C20-9 (nil dereference when a successful describe leaves a
+registered group out: two new failure kinds make the scan's refresh answer without the first/last registered group, in the
+histories and at call 0 of every enumerated scan; the simulated provider-cache model carries the provider's own
+decrements across such a refresh), C16-7 (start-up gate looks at the last group only: the real binary is now also run on
+files with three groups, the unsafe one first, in the middle and last, for every invariant class), C17-6 (IncreaseSize
+starting from the number of listed instances: the grid now also has cloud groups listing more or fewer instances than they
+desire). One change of the fifth round was **not kept**: it makes a not-in-group error from the *force-removal* path stop
+the scan (and with it later groups), which the agent filed under C12. C19's statement says a not-in-group error makes
+escalator exit rather than continue and does not except the force-removal path, so the statements do not decide which of
+the two behaviours is right; the monitors treat that situation as a don't-care (section 12) and a check demanding the
+present behaviour would alarm on code the statements allow.
+
+A seventh round asked six agents for changes that are *hard to expose* (needing three or more scans with carried state, two
+independent rare conditions at once, unusual but legal object shapes, order or multiplicity of things that are usually
+unique, one specific odd answer of an external call, a numeric or time edge): 12 confirmed changes, four of them close
+relatives of earlier ones, 10 caught at first try. The misses: C19-8 (removal request naming the same node twice: the
+DeleteNodes grid now has lists with repeated entries and requires that no more decrementing terminate calls are issued than
+desired − min allows), C06-8 (int64 overflow of request×100 above 92 TB: it was caught by C13's large-cluster percent sweep
+but not by the C06 histories, whose groups were too small; one group in 25 now has nodes of 12-17 TB of memory, so group
+totals reach 10^17-10^18 milli-bytes).
+
+After that all one hundred and thirty-three are caught by the quick check of the property they were written against
+(`bin/regress_seeded` re-runs all of them against a scratch copy of /repo and rewrites the `detection` entries).
 
 | Seeded change | Files | What was changed | Needs, to manifest | Quick check of that property |
 |---|---|---|---|---|
